@@ -372,6 +372,86 @@ fn raw_and_multipart(ctx: &Ctx, srv: &LiveServer<zoo9::ZooCtx>, cn: &Cn, samples
     }
 }
 
+// ------------------------------------------------------------------ truncated bodies
+
+/// A body that stops before its declared end (the client half-closes, closes or resets) was not
+/// "sent": no handler of a buffering extractor may be invoked with the prefix as if it were the
+/// value - also when the prefix is itself a well-formed document.
+fn truncated_bodies(ctx: &Ctx, cn: &Cn) -> Value {
+    let srv = LiveServer::start(zoo9::api(&[Some(100_000)]), zoo9::ZooCtx::default(), ServerOpts { default_body_max: 4096, ..Default::default() }).unwrap_or_else(|e| machinery_failure(&e));
+    // (path, operation, content type, full body, cut points at which the prefix is a valid document)
+    let targets: Vec<(&str, &str, &str, &[u8], Vec<usize>)> = vec![
+        ("/lim/100000/raw", "lim_100000_raw", "application/octet-stream", b"transfer 1000000 to account 42", vec![1, 13, 29]),
+        ("/lim/100000/json", "lim_100000_json", "application/json", b"1000000", vec![1, 4, 6]),
+        ("/lim/100000/json", "lim_100000_json", "application/json", b"[1,2,3] ", vec![7]),
+        ("/lim/100000/form", "lim_100000_form", "application/x-www-form-urlencoded", b"v=hello+world", vec![2, 5, 12]),
+    ];
+    let mut runs = 0u64;
+    for (path, op, ct, body, cuts) in &targets {
+        for &cut in cuts {
+            for framing in ["content-length", "chunked-partial-chunk", "chunked-no-terminator"] {
+                for action in ["half-close", "close", "reset"] {
+                    runs += 1;
+                    cn.requests.fetch_add(1, Ordering::Relaxed);
+                    let before = srv.server().app_private().count(op);
+                    let Ok(mut c) = Conn::connect(srv.addr) else { continue };
+                    let head = match framing {
+                        "content-length" => format!("PUT {path} HTTP/1.1\r\nhost: h\r\ncontent-type: {ct}\r\ncontent-length: {}\r\n\r\n", body.len()),
+                        _ => format!("PUT {path} HTTP/1.1\r\nhost: h\r\ncontent-type: {ct}\r\ntransfer-encoding: chunked\r\n\r\n"),
+                    };
+                    let mut bytes = head.into_bytes();
+                    match framing {
+                        "content-length" => bytes.extend_from_slice(&body[..cut]),
+                        // the chunk announces the whole body but stops at `cut`
+                        "chunked-partial-chunk" => {
+                            bytes.extend_from_slice(format!("{:x}\r\n", body.len()).as_bytes());
+                            bytes.extend_from_slice(&body[..cut]);
+                        }
+                        // one complete chunk holding the prefix, then nothing (no last-chunk)
+                        _ => {
+                            bytes.extend_from_slice(format!("{:x}\r\n", cut).as_bytes());
+                            bytes.extend_from_slice(&body[..cut]);
+                            bytes.extend_from_slice(b"\r\n");
+                        }
+                    }
+                    let _ = c.send(&bytes);
+                    std::thread::sleep(Duration::from_millis(20));
+                    let mut response: Option<u16> = None;
+                    match action {
+                        "half-close" => {
+                            let _ = c.stream.shutdown(std::net::Shutdown::Write);
+                            if let ReadOutcome::Resp(r) = c.read_response(false, Duration::from_millis(1500)) {
+                                response = Some(r.status);
+                            }
+                        }
+                        "close" => drop(c),
+                        _ => c.reset_on_close(),
+                    }
+                    // give a wrongly started handler time to show up
+                    std::thread::sleep(Duration::from_millis(if action == "half-close" { 5 } else { 60 }));
+                    let after = srv.server().app_private().count(op);
+                    let mut why: Vec<&str> = vec![];
+                    if after != before {
+                        why.push("handler invoked with a truncated body");
+                    }
+                    if matches!(response, Some(s) if s < 400) {
+                        why.push("truncated body answered with success");
+                    }
+                    if !why.is_empty() {
+                        ctx.report(Violation {
+                            sig: json!({"kind":"truncated_body_delivered","endpoint": path, "framing": framing, "client": action, "why": why}),
+                            case: json!({"kind":"live_request","carrier":"truncated","what": format!("{path} {framing} cut at {cut} of {} then {action}", body.len())}),
+                            expected: json!("no handler runs; no success response"),
+                            observed: json!({"handler_runs": after - before, "response_status": response}),
+                        });
+                    }
+                }
+            }
+        }
+    }
+    json!({"runs": runs, "rule": "4 bodies whose prefixes are well-formed documents x cut points x {content-length, chunk cut short, chunk complete but no last-chunk} x {half-close, close, reset}"})
+}
+
 // ------------------------------------------------------------------ TLS slice: handshake order vs accept order
 
 fn perms(n: usize) -> Vec<Vec<usize>> {
@@ -649,6 +729,8 @@ fn main() {
                     Some(c) => run_case(ctx, &mut KeepAlive::new(srv.addr), c, &cn, &Samples::new(0)),
                     None => raw_and_multipart(ctx, &srv, &cn, &Samples::new(0)),
                 }
+            } else if case["carrier"] == json!("truncated") {
+                truncated_bodies(ctx, &cn);
             } else {
                 raw_and_multipart(ctx, &srv, &cn, &Samples::new(0));
             }
@@ -670,6 +752,7 @@ fn main() {
         }
     });
     raw_and_multipart(&ctx, &srv, &cn, &samples);
+    let truncated = truncated_bodies(&ctx, &cn);
     let tls = vec![tls_slice(&ctx, 3, &cn, &samples), if ctx.tier == Tier::Thorough { tls_slice(&ctx, 4, &cn, &samples) } else { json!(null) }];
     // versioned routes whose versions differ in body content type / parameter type: valid requests
     // at every version are delivered to the endpoint serving that version
@@ -717,6 +800,7 @@ fn main() {
         "rule": "values: strings (every Latin-1 code point, first/last scalar of every plane, the reserved set, each alone and between two letters; thorough: every Unicode scalar value) in 4 carriers (path segment, query value, JSON body, url-encoded body) with hex-case / needless-encoding / '+' / \\u-escape variants; integer extremes of every width incl. 128-bit; float extremes bit-exact; booleans, enum variants, chars, Option present/absent, Vec of 0-3, wildcard paths; content-type spellings; framings (content-length, every composition of the body into <=3 chunks, trailers, chunk extensions, HTTP/1.0); raw 0..255 bodies buffered and streaming; multipart with 7 boundary spellings; request-context echo. Oracle: response body == serde_json serialisation of the value the client encoded (byte-exact). schedules: every interleaving of send / release-gate / read over 2-3 connections with up to 3 pipelined requests, each request carrying distinct markers in path, query, header and body. distinct_nontrivial = value cases whose request contains an escape or a non-ASCII byte, or a non-trivial framing, and that were delivered intact.",
         "value_cases": n, "by_carrier": *cn.by_carrier.lock().unwrap(), "handler_invocations_counted": entered,
         "tls_slice": tls,
+        "truncated_bodies": truncated,
         "schedules": sched_info, "schedule_events": sched_events.load(Ordering::Relaxed),
         "caps_hit": caps, "exhaustive": caps.is_empty(),
         "samples": samples.take(),
